@@ -433,6 +433,33 @@ fn exec(t: &[&str]) -> String {
             (Some(hl), Some(pre), Some(ds)) => run_resp_x(hl, Some(&pre), &ds, false).0,
             _ => "bad-op".into(),
         },
+        // parse a response, then decode what was parsed: the whole chain a client runs
+        ["RESPDEC", _tree, _ov, hl, ds] => match (lim(hl), deliveries(ds)) {
+            (Some(hl), Some(ds)) => {
+                let (first, r) = run_resp(hl, &ds);
+                match r {
+                    None => first,
+                    Some(mut r) => {
+                        let txt = match std::panic::catch_unwind(std::panic::AssertUnwindSafe(|| coding::decode_body_as_text(&r.headers, &r.body))) {
+                            Err(_) => format!("P:{}", pk(&last_panic())),
+                            Ok(Some(t)) => format!("SOME {}", hex(t.as_bytes())),
+                            Ok(None) => "NONE".into(),
+                        };
+                        let dec = match std::panic::catch_unwind(std::panic::AssertUnwindSafe(|| {
+                            let body = std::mem::take(&mut r.body);
+                            let o = coding::decode_body(&mut r.headers, &body);
+                            (o, headers(&r.headers))
+                        })) {
+                            Err(_) => format!("P:{}", pk(&last_panic())),
+                            Ok((Ok(o), hs)) => format!("OK {} | h={}", hex(&o), hs),
+                            Ok((Err(_), hs)) => format!("ERR | h={}", hs),
+                        };
+                        format!("{} || TXT {} || DEC {}", first, txt, dec)
+                    },
+                }
+            },
+            _ => "bad-op".into(),
+        },
         ["RESP", _tree, _ov, hl, ds] => match (lim(hl), deliveries(ds)) {
             (Some(hl), Some(ds)) => run_resp(hl, &ds).0,
             _ => "bad-op".into(),
